@@ -1,16 +1,16 @@
 #!/usr/bin/env python3
 """Regenerates the seed tables of DESIGN.md §9 (between the markers) from /verif/seeded/*/meta.json."""
 import json, glob, os, re
-rows1, rows2, rows3 = [], [], []
+rows1, rows2, rows3, rows4 = [], [], [], []
 for d in sorted(glob.glob('/verif/seeded/*')):
     m = json.load(open(d + '/meta.json'))
     n = os.path.basename(d)
     det = m.get('detection') == 'DETECTED'
     by = ('`' + (m.get('detected_by') or '') + '`') if det else '**missed**'
-    if '-r2m' in n or '-r3m' in n:
+    if '-r2m' in n or '-r3m' in n or '-r4m' in n:
         fs = m.get('first_sweep', '')
         first = 'detected' if fs.startswith('DETECTED') else 'missed'
-        (rows2 if '-r2m' in n else rows3).append(f"| {n} | {m.get('what','')} | {first} | {by} | {m.get('history','')} |")
+        (rows2 if '-r2m' in n else rows3 if '-r3m' in n else rows4).append(f"| {n} | {m.get('what','')} | {first} | {by} | {m.get('history','')} |")
     else:
         rows1.append(f"| {n} | {m.get('what','')} | {by} | {m.get('history','')} |")
 def count(rows, col):
@@ -22,6 +22,9 @@ n2first = sum(1 for r in rows2 if r.split('|')[3].strip() == 'detected')
 t3 = "| seed | what the change does | first sweep | caught by (now) | history |\n|---|---|---|---|---|\n" + "\n".join(rows3)
 n3d = count(rows3, 4)
 n3first = sum(1 for r in rows3 if r.split('|')[3].strip() == 'detected')
+t4 = "| seed | what the change does | first sweep | caught by (now) | history |\n|---|---|---|---|---|\n" + "\n".join(rows4)
+n4d = count(rows4, 4)
+n4first = sum(1 for r in rows4 if r.split('|')[3].strip() == 'detected')
 s = open('/verif/DESIGN.md').read()
 a = s.index('<!-- SEEDS:BEGIN -->'); b = s.index('<!-- SEEDS:END -->')
 body = f"""<!-- SEEDS:BEGIN -->
@@ -45,7 +48,15 @@ were told what rounds 1 and 2 had produced.
 
 {t3}
 
+### Round 4 ({len(rows4)} confirmed seeds; {n4first} detected by the first sweep, {n4d} detected now, {len(rows4)-n4d} missed)
+
+Round 4 (the agents were told what rounds 1-3 had produced) was run in two halves, C01-C09 and C10-C20. The agents
+were also asked to report defects of the *unmodified* code they came across; that request produced more findings
+than any rule written before it (section 6, items 27-45).
+
+{t4}
+
 """
 s = s[:a] + body + s[b:]
 open('/verif/DESIGN.md', 'w').write(s)
-print(len(rows1), n1d, len(rows2), n2first, n2d, len(rows3), n3first, n3d)
+print(len(rows1), n1d, len(rows2), n2first, n2d, len(rows3), n3first, n3d, len(rows4), n4first, n4d)
